@@ -1511,6 +1511,7 @@ func (check) Run(seed int64, tier string, idx int, verbose bool) harness.Result 
 	sequencePhase(res, r, g, variants, types[0], dir, verbose)
 	refFaultPhase(res, r, g, tree, dir, stem, verbose)
 	crossPhase(res, r, dir, stem, verbose)
+	gapPhase(res, r, dir, stem, verbose)
 	return res.Done()
 }
 
